@@ -14,7 +14,7 @@ Inductive cap := CValue        (* returns a value *)
 Record dcap := {
   is_lkj : bool;                  (* isinstance(dist, D.LKJCholesky) *)
   has_det : bool;                 (* hasattr(dist, "deterministic_sample") *)
-  reg : option itype;             (* DETERMINISTIC_REGISTER.get(type(dist) or type(dist.base_dist)) *)
+  reg : option itype;             (* DETERMINISTIC_REGISTER entry of the class that is looked up (see lookup_reg below) *)
   support_real : option bool;     (* None: dist.support raises NotImplementedError; Some b: isinstance(support, _Real) = b *)
   c_mode : cap;
   c_median : cap;
@@ -96,6 +96,72 @@ Definition spec_sample (it : itype) (d : dcap) : action :=
                          end) d
        | _ => spec_by it d
        end.
+
+(* ------------------------------------------------------------------ wrapped distributions.
+   The object handed to _dist_sample may be a wrapper around a base distribution: torch.distributions.Independent
+   (the only wrapper _dist_sample knows about: `tdist = type(dist); if issubclass(tdist, D.Independent): tdist =
+   type(dist.base_dist)` -- ONE step, an `if`, not a loop), or a TransformedDistribution-style class, which is looked up
+   under its own class.  Every attribute (deterministic_sample, support, mode, median, mean, has_rsample, (r)sample) is
+   consulted on the OUTER object; what the outer object answers is torch's delegation, transcribed in [caps]
+   (trusted transcription of torch.distributions.Independent / TransformedDistribution, compared with the real classes on
+   every generated case). *)
+Inductive layer := LIndep | LTrans (own : option itype).     (* own: DETERMINISTIC_REGISTER entry of the wrapper's class *)
+
+(* D.Independent is itself in DETERMINISTIC_REGISTER: the loop over torch.distributions tests the class attribute
+   `has_enumerate_support`, which on Independent is a property object (truthy) -> MODE *)
+Definition indep_reg : option itype := Some TMode.
+
+(* register entry of an object's OWN class *)
+Definition own_reg (ls : list layer) (b : dcap) : option itype :=
+  match ls with
+  | [] => reg b
+  | LIndep :: _ => indep_reg
+  | LTrans r :: _ => r
+  end.
+(* the class _dist_sample looks up: one Independent layer is removed *)
+Definition lookup_reg (ls : list layer) (b : dcap) : option itype :=
+  match ls with
+  | LIndep :: r => own_reg r b
+  | _ => own_reg ls b
+  end.
+(* [look = false]: a lookup under type(dist) itself (what a lookup that forgets the unwrapping does) *)
+Definition lookup_gen (look : bool) (ls : list layer) (b : dcap) : option itype :=
+  if look then lookup_reg ls b else own_reg ls b.
+
+(* SPEC: Independent only re-interprets batch dims as event dims -- the statistic is the one registered for the base
+   under ALL the Independent layers *)
+Fixpoint strip (ls : list layer) : list layer :=
+  match ls with LIndep :: r => strip r | _ => ls end.
+Definition spec_reg (ls : list layer) (b : dcap) : option itype := own_reg (strip ls) b.
+
+(* what the outer object answers, layer by layer (reg is filled in by the caller) *)
+Fixpoint caps (ls : list layer) (b : dcap) : dcap :=
+  match ls with
+  | [] => b
+  | LIndep :: r =>
+      let c := caps r b in
+      {| is_lkj := false; has_det := false; reg := None;
+         support_real := match support_real c with Some _ => Some false | None => None end;   (* constraints.independent(...) is not _Real *)
+         c_mode := c_mode c; c_median := CAttrErr; c_mean := c_mean c; has_rsample := has_rsample c |}
+  | LTrans _ :: r =>
+      let c := caps r b in
+      {| is_lkj := false; has_det := false; reg := None;
+         support_real := support_real c;              (* no transforms: the base's support *)
+         c_mode := CNotImpl; c_median := CAttrErr; c_mean := CNotImpl; has_rsample := has_rsample c |}
+  end.
+Definition with_reg (r : option itype) (c : dcap) : dcap :=
+  {| is_lkj := is_lkj c; has_det := has_det c; reg := r; support_real := support_real c; c_mode := c_mode c;
+     c_median := c_median c; c_mean := c_mean c; has_rsample := has_rsample c |}.
+
+Definition dist_sample_w_gen (look : bool) (it : itype) (ls : list layer) (b : dcap) : action :=
+  dist_sample it (with_reg (lookup_gen look ls b) (caps ls b)).
+Definition dist_sample_w := dist_sample_w_gen true.
+Definition spec_sample_w (it : itype) (ls : list layer) (b : dcap) : action :=
+  spec_sample it (with_reg (spec_reg ls b) (caps ls b)).
+
+(* at most one Independent layer on top: the region in which the code's one-step unwrapping is the whole unwrapping *)
+Definition one_step (ls : list layer) : bool :=
+  match ls with LIndep :: LIndep :: _ => false | _ => true end.
 
 (* the finite grid *)
 Definition all_itype : list itype := [TMode; TMedian; TMean; TRandom; TDeterministic].
